@@ -37,12 +37,15 @@ Proofs/Vhd.vos Proofs/Vhd.vok Proofs/Vhd.required_vos: Proofs/Vhd.v Base/Arith.v
 Proofs/Vmdk.vo Proofs/Vmdk.glob Proofs/Vmdk.v.beautified Proofs/Vmdk.required_vo: Proofs/Vmdk.v Base/Arith.vo Base/Plan.vo Base/Table.vo Base/Layout.vo Model/Vmdk.vo
 Proofs/Vmdk.vio: Proofs/Vmdk.v Base/Arith.vio Base/Plan.vio Base/Table.vio Base/Layout.vio Model/Vmdk.vio
 Proofs/Vmdk.vos Proofs/Vmdk.vok Proofs/Vmdk.required_vos: Proofs/Vmdk.v Base/Arith.vos Base/Plan.vos Base/Table.vos Base/Layout.vos Model/Vmdk.vos
+Proofs/VmdkDesc.vo Proofs/VmdkDesc.glob Proofs/VmdkDesc.v.beautified Proofs/VmdkDesc.required_vo: Proofs/VmdkDesc.v Base/Arith.vo Base/Plan.vo Base/Table.vo Model/Vmdk.vo Model/VmdkDesc.vo Proofs/Vmdk.vo
+Proofs/VmdkDesc.vio: Proofs/VmdkDesc.v Base/Arith.vio Base/Plan.vio Base/Table.vio Model/Vmdk.vio Model/VmdkDesc.vio Proofs/Vmdk.vio
+Proofs/VmdkDesc.vos Proofs/VmdkDesc.vok Proofs/VmdkDesc.required_vos: Proofs/VmdkDesc.v Base/Arith.vos Base/Plan.vos Base/Table.vos Model/Vmdk.vos Model/VmdkDesc.vos Proofs/Vmdk.vos
 Props/C02.vo Props/C02.glob Props/C02.v.beautified Props/C02.required_vo: Props/C02.v Base/Plan.vo Base/Table.vo Model/Vmdk.vo Proofs/Vmdk.vo
 Props/C02.vio: Props/C02.v Base/Plan.vio Base/Table.vio Model/Vmdk.vio Proofs/Vmdk.vio
 Props/C02.vos Props/C02.vok Props/C02.required_vos: Props/C02.v Base/Plan.vos Base/Table.vos Model/Vmdk.vos Proofs/Vmdk.vos
 Props/C04.vo Props/C04.glob Props/C04.v.beautified Props/C04.required_vo: Props/C04.v Base/Plan.vo Base/Table.vo Model/Vhd.vo Proofs/Vhd.vo
 Props/C04.vio: Props/C04.v Base/Plan.vio Base/Table.vio Model/Vhd.vio Proofs/Vhd.vio
 Props/C04.vos Props/C04.vok Props/C04.required_vos: Props/C04.v Base/Plan.vos Base/Table.vos Model/Vhd.vos Proofs/Vhd.vos
-Props/C10.vo Props/C10.glob Props/C10.v.beautified Props/C10.required_vo: Props/C10.v Model/VmdkDesc.vo
-Props/C10.vio: Props/C10.v Model/VmdkDesc.vio
-Props/C10.vos Props/C10.vok Props/C10.required_vos: Props/C10.v Model/VmdkDesc.vos
+Props/C10.vo Props/C10.glob Props/C10.v.beautified Props/C10.required_vo: Props/C10.v Base/Plan.vo Base/Table.vo Model/Vmdk.vo Model/VmdkDesc.vo Proofs/Vmdk.vo Proofs/VmdkDesc.vo
+Props/C10.vio: Props/C10.v Base/Plan.vio Base/Table.vio Model/Vmdk.vio Model/VmdkDesc.vio Proofs/Vmdk.vio Proofs/VmdkDesc.vio
+Props/C10.vos Props/C10.vok Props/C10.required_vos: Props/C10.v Base/Plan.vos Base/Table.vos Model/Vmdk.vos Model/VmdkDesc.vos Proofs/Vmdk.vos Proofs/VmdkDesc.vos
